@@ -7,6 +7,8 @@ use std::sync::OnceLock;
 
 /// Index of the "big" key (9000-byte encoding ⇒ WAL record > 8 KiB), only for byte-string key types.
 pub const BIG: u8 = 4;
+/// Index of the "huge" key (70,000 bytes ⇒ WAL record > 64 KiB), only for String.
+pub const HUGE: u8 = 5;
 
 pub trait HKey: KeyBytes + Clone + Eq + Ord + Hash + Debug + Send + Sync + 'static {
     const NAME: &'static str;
@@ -32,6 +34,7 @@ impl HKey for String {
             2 => String::new(),
             3 => "c".into(),
             4 => "k".repeat(9000),
+            5 => "h".repeat(70_000),
             _ => return None,
         })
     }
